@@ -770,8 +770,11 @@ def make_scheduler(case, space):
     if "bayesopt" in kind or "hypertune" in kind:
         so = dict(FAST_GP, num_init_random=case["num_init_random"])
         so.update(case.get("search_options") or {})
-        if case.get("corner_optimizer"):
+        if case.get("corner_optimizer") or case.get("local_minimizer") == "corner":
             so["local_minimizer_class"] = corner_optimizer_class(case["seed"])
+        elif case.get("local_minimizer") == "NoOptimization":
+            from syne_tune.optimizer.schedulers.searchers.bayesopt.tuning_algorithms.bo_algorithm_components import NoOptimization
+            so["local_minimizer_class"] = NoOptimization
     if kind == "hb-promotion-hypertune":
         so["model"] = "gp_independent"
     common = dict(metric="m", mode=case.get("mode", "min"), random_seed=seed, points_to_evaluate=pts)
@@ -1359,6 +1362,107 @@ def run_shared_case(ctx, case):
 
 
 # --------------------------------------------------------------------------
+# 4d. large finite space, almost used up through points_to_evaluate (most trials fail), then GP-BO to exhaustion
+# --------------------------------------------------------------------------
+def gen_large_case(rng):
+    n = rng.choice([600, 700])
+    left = sorted(rng.sample(range(n), rng.randint(2, 6)))
+    return dict(kind="large", n=n, left=left, seed=rng.randrange(10 ** 6), observed_every=rng.choice([150, 200]))
+
+
+def run_large_case(ctx, case):
+    from syne_tune.optimizer.schedulers import FIFOScheduler
+    from syne_tune.backend.trial_status import Trial
+    from syne_tune.config_space import randint
+    quiet()
+    n, left = case["n"], set(case["left"])
+    space = {"x": randint(0, n - 1), "epochs": 3}
+    initial = [{"x": x} for x in range(n) if x not in left]
+    with contextlib.redirect_stdout(io.StringIO()):
+        sch = FIFOScheduler(space, searcher="bayesopt", metric="m", mode="min", random_seed=case["seed"],
+                            points_to_evaluate=initial,
+                            search_options=dict(debug_log=False, num_init_random=2, opt_maxiter=3, opt_nstarts=1))
+        seen, t, viol = [], 0, None
+        while t <= n + 2:
+            sg = sch.suggest(t)
+            if sg is None:
+                break
+            bad = check_suggestion(space, sg.config)
+            x = sg.config.get("x")
+            if bad:
+                viol = bad
+                break
+            if x in seen:
+                viol = ("repeated_configuration", "x=%r suggested twice (trial %d)" % (x, t))
+                break
+            seen.append(x)
+            tr = Trial(trial_id=t, config=sg.config, creation_time=T0)
+            sch.on_trial_add(tr)
+            if t % case["observed_every"] == 7 or t >= len(initial):
+                res = {"m": ((x - 321) / n) ** 2}
+                sch.on_trial_result(tr, res)
+                sch.on_trial_complete(tr, res)
+            else:
+                sch.on_trial_error(tr)        # failed: never again, and no data for the model
+            t += 1
+    if viol is None and seen[:len(initial)] != [c["x"] for c in initial][:len(seen)]:
+        viol = ("initial_points_not_first", "first difference at %d" % next(i for i, (a, b) in enumerate(zip(seen, initial)) if a != b["x"]))
+    if viol is None and len(seen) < n:
+        viol = ("none_before_finite_space_exhausted", "None after %d distinct of %d configurations (model-based phase)" % (len(seen), n))
+    return viol, len(seen)
+
+
+# --------------------------------------------------------------------------
+# 4e. points_to_evaluate entries a few ulps / 1e-9 OUTSIDE a float domain: rejected at construction or clipped,
+#     never suggested as they are
+# --------------------------------------------------------------------------
+def gen_outside_case(rng):
+    lo, hi = rng.choice([[0.1, 0.3], [0.1, 0.7], [0.0, 1.0], [1e-3, 0.3]])
+    kind = rng.choice(["uniform", "loguniform"]) if lo > 0 else "uniform"
+    how = rng.choice(["sum", "ulp_up", "ulp_down", "eps_up", "eps_down"])
+    v = {"sum": 0.1 + 0.2 if hi == 0.3 else float(np.nextafter(hi, np.inf)), "ulp_up": float(np.nextafter(hi, np.inf)),
+         "ulp_down": float(np.nextafter(lo, -np.inf)), "eps_up": hi + 1e-9, "eps_down": lo - 1e-9}[how]
+    return dict(kind="outside", spec=[["lr", "dom", [kind, lo, hi]], ["n", "dom", ["randint", 1, 4]], ["seed", "const", 7]],
+                value=v, via=rng.choice(["random-direct", "grid-direct", "fifo-random", "fifo-bayesopt", "hb-stopping-random", "dehb"]),
+                seed=rng.randrange(10 ** 6), how=how)
+
+
+def run_outside_case(ctx, case):
+    from syne_tune.optimizer.schedulers.searchers import RandomSearcher, GridSearcher
+    quiet()
+    space = build_space(case["spec"])
+    pts = [{"lr": case["value"], "n": 2}, {"n": 3}]
+    via = case["via"]
+    try:
+        with contextlib.redirect_stdout(io.StringIO()):
+            if via == "random-direct":
+                obj = RandomSearcher(space, metric="m", points_to_evaluate=pts, random_seed=case["seed"])
+            elif via == "grid-direct":
+                obj = GridSearcher(space, metric="m", points_to_evaluate=pts, random_seed=case["seed"])
+            else:
+                obj = make_scheduler(dict(sched=via, seed=case["seed"], pts=pts, num_init_random=2), space)
+    except AssertionError:
+        return None, "rejected_at_construction"
+    outs = []
+    with contextlib.redirect_stdout(io.StringIO()):
+        for i in range(3):
+            if via.endswith("-direct"):
+                c = obj.get_config(trial_id=str(i))
+                c = None if c is None else as_scheduler_would(space, c)
+            else:
+                sg = obj.suggest(i)
+                c = None if sg is None else sg.config
+            if c is None:
+                break
+            outs.append(c)
+    for c in outs:
+        bad = check_suggestion(space, c)
+        if bad:
+            return (bad[0], "points_to_evaluate entry lr=%r (%s) accepted: %s" % (case["value"], case["how"], bad[1])), "suggested"
+    return None, "accepted_and_valid"
+
+
+# --------------------------------------------------------------------------
 # 5. _postprocess_config unit cases
 # --------------------------------------------------------------------------
 def resume_term(space, stored, mra, out):
@@ -1486,6 +1590,8 @@ def run(ctx, replay=None):
         cases += [gen_batch_case(rng) for _ in range(ctx.n(40, 300))]
         cases += [gen_shared_case(rng) for _ in range(ctx.n(40, 300))]
         cases += [gen_batch_mixed_case(rng) for _ in range(ctx.n(60, 400))]
+        cases += [gen_large_case(rng) for _ in range(ctx.n(2, 8))]
+        cases += [gen_outside_case(rng) for _ in range(ctx.n(30, 200))]
         # directed: initial points ON the bounds of domains whose bounds do not round-trip through log/exp (DEHB keeps
         # them encoded), and a box-corner local optimiser on such domains (decoding of encoded 0.0 / 1.0)
         odd = [["lr", "dom", ["loguniform", 1e-6, 0.1]], ["wd", "dom", ["loguniform", 1e-5, 1e-2]],
@@ -1585,6 +1691,19 @@ def run(ctx, replay=None):
             for sig, text in viols:
                 ctx.violation("property", "%s (shared restrict_configurations): %s — %s" % (case["via"], sig["event"], text),
                               case=case, signature=sig)
+        elif k == "large":
+            viol, nseen = run_large_case(ctx, case)
+            ctx.count(case, nontrivial=True)
+            ctx.h("large_finite_space_gp", "n=%d left=%d suggested=%d" % (case["n"], len(case["left"]), nseen))
+            if viol:
+                report(ctx, viol, case, "fifo-bayesopt")
+        elif k == "outside":
+            viol, outcome = run_outside_case(ctx, case)
+            ctx.count(case, nontrivial=True)
+            ctx.h("points_just_outside_domain", "%s: %s" % (case["how"], outcome))
+            if viol:
+                report(ctx, viol, case, case["via"] if case["via"] in SEARCHER_OF else
+                       ("RandomSearcher" if case["via"] == "random-direct" else "GridSearcher"))
         elif k == "batch_mixed":
             viol, nb, ne, term = run_batch_mixed_case(ctx, case)
             if term is not None:
